@@ -451,7 +451,7 @@ def run(chk):
     chk.matchers["input-atom-gains-position"] = m_atom_gained_position
     chk.prove("Props/C36.v", ["Props/C36.vo", "MacroNS/ExpandEncode.vo"], [macro_lookup.translate, macro_expand.translate])
     thorough = chk.tier == "thorough"
-    n_inputs = 30000 if thorough else 2500
+    n_inputs = 20000 if thorough else 2000
     per_world = 25
     chk.rule = ("world = module with up to 6 template macros (arity 0-2; quasiquote templates producing calls of later "
                 "macros, core forms `if`/`quote`, dotted heads, non-macro heads, lists, atoms; some raising), "
@@ -480,7 +480,7 @@ def run(chk):
                 chk.fail("input-mutated", {"form": text, "fn": nm, "mutation": "core-form"}, "changed", "unchanged", "")
     w0.remove()
     # -- generated worlds
-    cases, exprs, defs_text = [], [], []
+    cases, exprs, world_defs = [], [], {}
     world = None
     for k in range(n_inputs):
         if k % per_world == 0:
@@ -488,7 +488,7 @@ def run(chk):
                 world.remove()
             world = World(chk.rng, k // per_world + 1)
             world.install(hy)
-            defs_text.append(world.coq())
+            world_defs[world.idx] = world.coq()
         d = gen_input(chk.rng, world)
         regime = chk.rng.choice(["none", "all", "mixed", "top", "read", "top", "mixed"])
         bits = [chk.rng.random() < 0.5 for _ in range(7)]
@@ -518,24 +518,30 @@ def run(chk):
             else:
                 enc = [5]
             obs.append((nm, o, r, before, after, enc))
-        cases.append((world, d, regime, bits, obs))
+        cases.append((world_text(world) if len(cases) % 25 == 0 else world.idx, input_text(d), regime, [(nm, enc) for nm, _, _, _, _, enc in obs]))
         judge_oracle(chk, hy, world, d, regime, bits, obs)
     if world:
         world.remove()
     core_ns = mcm.coq_ns([(n, mid) for n, mid, _ in CORE])
-    outs = vlib.coq_eval(["HyV.MacroNS.ExpandEncode"],
-                         "Import HyV.Base.Text HyV.MacroNS.ExpandSyntax HyV.MacroNS.ExpandModel HyV.MacroNS.LookupModel.\n"
-                         "Definition hcore : ns := %s.\n" % core_ns + "".join(defs_text), exprs, tag="c36", shard=120)
-    for (world, d, regime, bits, obs), o in zip(cases, outs):
+    outs = []
+    batch = 100 * per_world         # the model side in batches, each with only its own worlds' definitions
+    for b in range(0, len(exprs), batch):
+        sub = exprs[b:b + batch]
+        used = sorted({int(e.split("_extra")[0].split(" w")[-1]) for e in sub})
+        dtext = "".join(world_defs[w] for w in used)
+        outs += vlib.coq_eval(["HyV.MacroNS.ExpandEncode"],
+                              "Import HyV.Base.Text HyV.MacroNS.ExpandSyntax HyV.MacroNS.ExpandModel HyV.MacroNS.LookupModel.\n"
+                              "Definition hcore : ns := %s.\n" % core_ns + dtext, sub, tag="c36", shard=120)
+    for (wt, text, regime, encs), o, ex in zip(cases, outs, exprs):
         ns = mcm.nums(o)
         m1, rest = split_outcome(ns)
         assert rest[0] == 8
         m2, rest2 = split_outcome(rest[1:])
-        for (nm, _, r, _, _, enc), m in zip(obs, (m1, m2)):
+        for (nm, enc), m in zip(encs, (m1, m2)):
             enc, m = canon_quote(enc), canon_quote(m)
             if enc != m:
                 chk.disagree("ExpandModel.hy_%s vs hy.%s" % (nm.replace("-", "_"), nm),
-                             {"world": world_text(world), "input": input_text(d), "positions": regime}, m, enc)
+                             {"world": wt, "input": text, "positions": regime, "model_term": ex[:600]}, m, enc)
 
 
 QUOTE = [1, 0, None, 5] + [ord(c) for c in "quote"]
